@@ -36,6 +36,9 @@ type doc struct {
 	uerr    error
 	scanned []osm.Object
 	serr    error
+	// known names the known-finding class of C03 the document belongs to (decided when the
+	// document is built): the scanner treats as an object what the decoder treats as unknown
+	known string
 }
 
 func newOf(typ string) interface{} {
@@ -228,6 +231,7 @@ const (
 func build(d *doc, canary int) *wire.Case {
 	c := &wire.Case{Class: d.class}
 	c.Str(d.typ)
+	c.Bool(d.known != "" && canary == canNone) // outside doc_ok exactly when in a known-finding class
 	tree := d.tree
 	if canary == canTree {
 		t2 := *tree
@@ -277,6 +281,10 @@ func build(d *doc, canary int) *wire.Case {
 		c.Canary = canary
 	} else {
 		c.OracleFail = goOracle(d, written)
+		c.Known = d.known
+		if d.known != "" {
+			desc["known_class"] = d.known
+		}
 	}
 	return c
 }
@@ -290,6 +298,7 @@ func main() {
 
 	var docs []*doc
 	nsMode := 0
+	knownClass := ""
 	mk := func(typ string, val interface{}, tree *xcodec.XNode, class string, plain bool, noise *xcodec.Noise) {
 		if noise != nil {
 			noise.Apply(tree)
@@ -300,7 +309,7 @@ func main() {
 			w.Count(fmt.Sprintf("layout:namespace-%d", nsMode))
 			class += fmt.Sprintf("-ns%d", nsMode)
 		}
-		d := &doc{typ: typ, val: val, tree: tree, text: l.Render(tree), class: class}
+		d := &doc{typ: typ, val: val, tree: tree, text: l.Render(tree), class: class, known: knownClass}
 		decodeBoth(d)
 		docs = append(docs, d)
 	}
@@ -371,6 +380,46 @@ func main() {
 	mk("Way", we, always.Way(we), "corpus-epoch", true, nil)
 	re := &osm.Relation{ID: 9, Timestamp: ep, Members: osm.Members{{Type: "relation", Ref: 1, Lat: 1, Lon: 2, Orientation: 1, Nodes: osm.WayNodes{{ID: 1}}}}}
 	mk("Relation", re, always.Relation(re), "corpus-epoch", true, nil)
+
+	// known findings of C03: an unknown element wrapping an object element, and an element whose
+	// name is an object kind up to ASCII case — the streaming scanner takes the inner / the
+	// case-folded element for an object, the whole-document decoder ignores it
+	wrapIn := func(root *xcodec.XNode, pos int, extra *xcodec.XNode) {
+		if pos > len(root.Kids) {
+			pos = len(root.Kids)
+		}
+		root.Kids = append(root.Kids[:pos], append([]*xcodec.XNode{extra}, root.Kids[pos:]...)...)
+	}
+	hidden := func() *xcodec.XNode {
+		x := always.Node(&osm.Node{ID: 77, Visible: true})
+		x.Obj = nil
+		return x
+	}
+	for pos := 0; pos < 3; pos++ {
+		ck := &osm.OSM{Version: "0.6", Nodes: osm.Nodes{n1}, Ways: osm.Ways{w1}}
+		t := always.OSM(ck)
+		wrapIn(t, pos, &xcodec.XNode{Name: "zzwrap", Extra: true, Leaf: true, Kids: []*xcodec.XNode{hidden()}})
+		knownClass = "scanner-descends-unknown-wrapper"
+		mk("OSM", ck, t, "known-wrapper", true, nil)
+		ck2 := &osm.OSM{Version: "0.6", Nodes: osm.Nodes{n1}, Ways: osm.Ways{w1}}
+		t2 := always.OSM(ck2)
+		variant := []*xcodec.XNode{
+			{Name: "Node", Extra: true, Leaf: true, Attrs: []xcodec.XAttr{{Name: "id", Val: xcodec.I(5)}}},
+			{Name: "WAY", Extra: true, Leaf: true, Attrs: []xcodec.XAttr{{Name: "id", Val: xcodec.I(5)}}},
+			{Name: "Bounds", Extra: true, Leaf: true, Attrs: []xcodec.XAttr{{Name: "minlat", Val: xcodec.F(1)}}},
+		}[pos]
+		wrapIn(t2, pos, variant)
+		knownClass = "scanner-case-folds-object-name"
+		mk("OSM", ck2, t2, "known-case", true, nil)
+	}
+	{
+		ck := &osm.Change{Create: &osm.OSM{Nodes: osm.Nodes{n1}}}
+		t := changeTree(rng, always, ck, w)
+		wrapIn(t.Kids[0], 0, &xcodec.XNode{Name: "zzwrap", Extra: true, Leaf: true, Kids: []*xcodec.XNode{hidden()}})
+		knownClass = "scanner-descends-unknown-wrapper"
+		mk("Change", ck, t, "known-wrapper", true, nil)
+	}
+	knownClass = ""
 
 	plan := []struct {
 		typ   string
